@@ -156,6 +156,8 @@ impl<'store> Transposable<'store> for ResultTextSelectionSet<'store> {
         // that we are dealing with a simple transposition instead) the source side that matches
         // can never be the same as the target side that is mappped to
         while let Some(tsel) = tselbuffer.pop_front() {
+            // is (the beginning of) this text selection found in any side?
+            let mut tsel_found = false;
 
             // iterate over all the sides
             for (side_i, annotation) in via.annotations_in_targets(AnnotationDepth::One).enumerate()
@@ -228,6 +230,7 @@ impl<'store> Transposable<'store> for ResultTextSelectionSet<'store> {
                                     source_textselections.push(ResultTextSelection::Unbound(self.rootstore(), resource.as_ref() ,intersection.clone()));
                                 }
                             }
+                            tsel_found = true;
                             relative_offsets.push((refseqnr, relative_offset));
                             selectors_per_side[side_i].push(SelectorBuilder::TextSelector(
                                 resource.handle().into(),
@@ -239,6 +242,12 @@ impl<'store> Transposable<'store> for ResultTextSelectionSet<'store> {
                 }
             }
             if simple_transposition {
+                break;
+            }
+            if !tsel_found {
+                //this text selection (or the remainder of one) is not covered by the transposition,
+                //put it back so it is reported as missing below
+                tselbuffer.push_front(tsel);
                 break;
             }
         }
